@@ -161,12 +161,13 @@ def parse_tr(lst):
     return ops
 
 
-EXACT = {1, 2, 3, 4, 5, 10, 11, 12, 13, 15, 20, 21}
+EXACT = {1, 2, 3, 4, 5, 10, 11, 12, 13, 15, 19, 20, 21}
 MODEL_ONLY = {8, 17}
 IMPL_ONLY = {18}
 POINTS = {6, 16}
 TRANS = {7, 14}
-OBS_NAMES = {1: "prover phase-1 call results", 2: "prover secrets after phase 1", 3: "prove result",
+OBS_NAMES = {19: "prover outcome class",
+             1: "prover phase-1 call results", 2: "prover secrets after phase 1", 3: "prove result",
              4: "prover phase-2 call results", 5: "proof scalars (t_x,t_x_blinding,e_blinding,a,b)",
              6: "proof points", 7: "prover transcript", 9: "rng draws", 10: "verifier phase-1 call results",
              11: "verifier phase-2 call results", 12: "verification_scalars result", 13: "verification scalar vector",
@@ -296,6 +297,11 @@ def run_component(comp, streams, seed, tier, name, curves=None, extra_args=None)
     for cid in summ:
         res.cases += 1
         if "nomodel=1" in summ[cid].get("line", ""):
+            # size-only model (Model/ShapeProver.v): the prover's outcome class of capacity-grid cases
+            mm, ii = model.get(cid), impl.get(cid)
+            if mm and ii and 19 in mm:
+                if 19 not in ii or [int(x) for x in ii[19]] != mm[19]:
+                    res.disagreements.append((cid, 19, "prover outcome class (0 ok, 3 InvalidGeneratorsLength, 9 panic): size model %s, implementation %s" % (mm.get(19), ii.get(19))))
             continue
         mm, ii = model.get(cid), impl.get(cid)
         if "forged=1" in summ[cid].get("line", "") and mm and ii:
